@@ -8,7 +8,7 @@
    Axiom-free. *)
 From Coq Require Import ZArith Lia List Bool Arith String.
 From RL Require Import Base.Num Base.Str Base.Outcome Model.Dates Model.Calendar Model.Named
-  Model.Dual Model.Number Model.FX Model.Json Model.Entry Proofs.NamedP Proofs.EntryP Proofs.JsonP
+  Model.Dual Model.Number Model.FX Model.Json Model.Entry Proofs.DatesP Proofs.CalendarP Proofs.NamedP Proofs.EntryP Proofs.JsonP
   Proofs.FXMat Proofs.FXP.
 Import ListNotations.
 Open Scope Z_scope.
@@ -649,3 +649,184 @@ Proof.
 Qed.
 
 End Load.
+
+(* ================================================================== the C20 statements *)
+(* ------------------------------------------------------------------ constructors *)
+(* the i16 edge counter of FXRates::try_new overflows (an abort under overflow checks) from 182
+   currencies on; below that every listed constructor returns *)
+Definition entry_small {T} `{Num T} (i : entry_in T) : Prop :=
+  match i with EFX qs b => (List.length (ccy_index qs b) <= 181)%nat | _ => True end.
+Definition entry_shape {T} `{Num T} (v : entry_out T) : Prop :=
+  match v with
+  | RDual d => wf_dual d
+  | RDual2 d => wf_dual2 d
+  | RCcy c => ccy_shape c
+  | RPair p => pair_shape p
+  | RRate q => pair_shape (pair q)
+  | RFX f => NoDup (currencies f) /\ List.length (currencies f) = S (List.length (fx_rates f)) /\
+             exists m, fx_array f = AD m /\ sq (List.length (currencies f)) m
+  | RNamed n => named_try_new (n_name n) = Ok n
+  end.
+
+Lemma run_entry_spec {T} `{Num T} (i : entry_in T) : entry_small i ->
+  run_entry i <> Panic /\ forall v, run_entry i = Ok v -> entry_shape v.
+Proof.
+  destruct i as [r vars d|r vars d d2|s|l r|l r x s|qs b|s]; intros Hs; cbn [run_entry].
+  - destruct (dual_try_new_spec r vars d) as [P S]. split.
+    + intros C. apply omap_panic in C. contradiction.
+    + intros v E. apply omap_ok in E. destruct E as [a [E ->]]. apply S; auto.
+  - destruct (dual2_try_new_spec r vars d d2) as [P S]. split.
+    + intros C. apply omap_panic in C. contradiction.
+    + intros v E. apply omap_ok in E. destruct E as [a [E ->]]. apply S; auto.
+  - destruct (ccy_try_new_spec s) as [P S]. split.
+    + intros C. apply omap_panic in C. contradiction.
+    + intros v E. apply omap_ok in E. destruct E as [a [E ->]]. apply S; auto.
+  - destruct (fxpair_try_new_spec l r) as [P S]. split.
+    + intros C. apply omap_panic in C. contradiction.
+    + intros v E. apply omap_ok in E. destruct E as [a [E ->]]. apply S; auto.
+  - destruct (fxrate_try_new_spec l r x s) as [P S]. split.
+    + intros C. apply omap_panic in C. contradiction.
+    + intros v E. apply omap_ok in E. destruct E as [a [E ->]]. apply S; auto.
+  - split.
+    + intros C. apply omap_panic in C. exact (try_new_no_panic_gen qs b Hs C).
+    + intros v E. apply omap_ok in E. destruct E as [f [E ->]]. cbn [entry_shape].
+      destruct (try_new_shape _ _ _ E) as [C [R [m [A [S _]]]]].
+      destruct (try_new_ok_inv_gen _ _ _ E) as [_ [L _]].
+      rewrite C, R. split; [apply dedup_nodup|]. split; [rewrite L; apply Nat.add_1_r|].
+      exists m. rewrite <- C. auto.
+  - split.
+    + intros C. apply omap_panic in C. exact (named_no_panic s C).
+    + intros v E. apply omap_ok in E. destruct E as [n [E ->]]. cbn [entry_shape].
+      exact (named_try_new_ok_named s n E).
+Qed.
+
+Lemma c20_constructors : forall (T : Type) (H : Num T) (i : entry_in T), entry_small i ->
+  run_entry i <> Panic /\ forall v, run_entry i = Ok v -> entry_shape v.
+Proof. intros. apply run_entry_spec; auto. Qed.
+
+(* Cal::new (not a Result): it aborts exactly for a week-mask value outside 0..6 *)
+Lemma c20_cal_new : forall hols mask,
+  (Forall (fun v => 0 <= v <= 6) mask /\ cal_new hols mask = Ok (mkCal mask hols)) \/
+  (~ Forall (fun v => 0 <= v <= 6) mask /\ cal_new hols mask = Panic).
+Proof. exact cal_new_spec. Qed.
+(* get_roll_by_day: any roll day >= 1 (32, 33, .. cap at the month end), aborts for day <= 0 *)
+Lemma c20_roll_day : forall y m r, 1 <= m <= 12 ->
+  (1 <= r -> exists x, get_roll_by_day y m r = Ok x) /\ (r <= 0 -> get_roll_by_day y m r = Panic).
+Proof.
+  intros y m r Hm. split.
+  - intros Hr. eexists. apply get_roll_by_day_spec; auto.
+  - apply get_roll_by_day_zero.
+Qed.
+
+(* ------------------------------------------------------------------ dates *)
+(* for ANY business-day / settlement predicates in which every window of FUEL+1 days (both
+   directions) holds an eligible day, with that FUEL as search bound: nothing aborts, and the only
+   error is add_bus_days from a non-business day *)
+Lemma c20_dates_total_dense : forall bus settle FUEL, dense bus settle FUEL ->
+  forall d n m s k r,
+    (exists x, add_days bus settle FUEL d n m s = Ok x) /\
+    add_bus_days bus settle FUEL d n s <> Panic /\
+    (exists x, lag bus settle FUEL d n s = Ok x) /\
+    (exists x, roll bus settle FUEL d m s = Ok x) /\
+    (roll_day_ok r -> i32_min < k -> in_i32 (year_of d + fst (month_carry (month_of d) k)) = true ->
+     exists x, add_months bus settle FUEL d k m r s = Ok x).
+Proof.
+  intros bus settle FUEL D d n m s k r.
+  split; [apply add_days_total; auto|].
+  split.
+  { destruct (add_bus_days_total _ _ _ D d n s) as [[_ ->]|[_ [x ->]]]; discriminate. }
+  split; [apply lag_total; auto|].
+  split; [apply roll_total; auto|].
+  intros. apply add_months_total; auto.
+Qed.
+
+(* every Cal whose week mask leaves a working weekday is dense for the bound the executable model
+   uses, 7 * (holidays + 1) *)
+Lemma c20_cal_dense : forall c, has_working_weekday c -> dense (cal_is_bus c) (cal_is_settle c) (cal_fuel c).
+Proof. exact cal_dense. Qed.
+
+(* the statement of the property: every day count of the 8-bit parameter, roll days 1..31, week
+   masks within 0..6 leaving a working weekday, target year 1970..2200 *)
+Definition roll_in_range (r : rollday) : Prop := match r with RInt x => 1 <= x <= 31 | _ => True end.
+Lemma c20_dates_total : forall hols mask c, cal_new hols mask = Ok c -> has_working_weekday c ->
+  forall d n m s k r, -128 <= n <= 127 -> roll_in_range r -> i32_min < k ->
+    1970 <= year_of d + fst (month_carry (month_of d) k) <= 2200 ->
+    cal_add_days c d n m s <> Panic /\ cal_add_bus_days c d n s <> Panic /\ cal_lag c d n s <> Panic /\
+    cal_roll c d m s <> Panic /\ cal_add_months c d k m r s <> Panic.
+Proof.
+  intros hols mask c _ Hw d n m s k r _ Hr Hk Hy.
+  destruct (cal_dates_total c Hw d n m s k r) as [[x1 E1] [E2 [[x3 E3] [[x4 E4] E5]]]].
+  rewrite E1, E3, E4. repeat split; try discriminate; auto.
+  destruct E5 as [x5 E5]; auto.
+  - destruct r; cbn in *; auto; lia.
+  - unfold in_i32, i32_min, i32_max. lia.
+  - rewrite E5. discriminate.
+Qed.
+
+(* ------------------------------------------------------------------ loading *)
+Definition KnownGap {T} `{Num T} (j : json T) : Prop :=
+  named_gap j                                  (* F4: a NamedCal document whose name try_new rejects *)
+  \/ fx_gap j                                  (* F4: FXRates data that try_new rejects / no currency *)
+  \/ exists v, from_json_model j = Ok v /\ unvalidated_ok v = false.    (* F5: unchecked relations *)
+
+Lemma c20_load : forall (T : Type) (H : Num T) (j : json T), ~ KnownGap j ->
+  from_json_model j <> Panic /\ forall v, from_json_model j = Ok v -> shapeb v = true.
+Proof.
+  intros T H j NG. split.
+  - intros P. apply load_panic_gap in P. apply NG. unfold KnownGap. tauto.
+  - intros v E. apply (load_shape j v E).
+    destruct (unvalidated_ok v) eqn:U; auto. exfalso. apply NG. right. right. eauto.
+Qed.
+(* the data-model decoding itself never aborts: with reconstructions that return their error
+   (serde(try_from)) the loader is total *)
+Lemma c20_load_total_with_try_from : forall (T : Type) (H : Num T) rn rf,
+  (forall s, rn s <> Panic) -> (forall d, rf d <> Panic) -> forall j : json T, dec_obj rn rf j <> Panic.
+Proof. intros T H rn rf Hn Hf j. apply (dec_obj_total rn rf Hn Hf j). Qed.
+Lemma c20_named_rebuild_total : forall s, rebuild_named_try s <> Panic.
+Proof. exact named_no_panic. Qed.
+
+(* On the pinned tree the full statement (without ~ KnownGap) is false: *)
+Definition doc_named_bad {T} `{Num T} : json T :=
+  JObj [(KStr k_NamedCal, JObj [(KStr k_name, JStr (s2n "bad"%string))])].
+Definition doc_fx_empty {T} `{Num T} : json T :=
+  JObj [(KStr k_FXRates, JObj [(KStr k_fx_rates, JArr []); (KStr k_currencies, JArr [])])].
+Definition doc_dual_short {T} `{Num T} : json T :=
+  JObj [(KStr k_Dual, JObj [(KStr k_real, JNum n1); (KStr k_vars, JArr [JStr (s2n "x"%string); JStr (s2n "y"%string)]);
+        (KStr k_dual, JObj [(KStr k_v, JInt 1); (KStr k_dim, JArr [JInt 1]); (KStr k_data, JArr [JNum n1])])])].
+
+Lemma c20_load_refuted_named : forall (T : Type) (H : Num T),
+  KnownGap (doc_named_bad (T:=T)) /\ from_json_model (doc_named_bad (T:=T)) = Panic.
+Proof.
+  intros T H. split; [|vm_compute; reflexivity].
+  left. exists (JObj [(KStr k_name, JStr (s2n "bad"%string))]). split; [left; reflexivity|].
+  exists (s2n "bad"%string). split; vm_compute; reflexivity.
+Qed.
+Lemma c20_load_refuted_fx : forall (T : Type) (H : Num T),
+  KnownGap (doc_fx_empty (T:=T)) /\ from_json_model (doc_fx_empty (T:=T)) = Panic.
+Proof.
+  intros T H. split; [|vm_compute; reflexivity].
+  right. left. eexists _, _, _. split; [reflexivity|]. split; vm_compute; reflexivity.
+Qed.
+Lemma c20_load_refuted_shape : forall (T : Type) (H : Num T),
+  KnownGap (doc_dual_short (T:=T)) /\
+  exists v, from_json_model (doc_dual_short (T:=T)) = Ok v /\ shapeb v = false.
+Proof.
+  intros T H.
+  assert (E : from_json_model (doc_dual_short (T:=T)) = Ok (ODual (mkDual n1 [s2n "x"; s2n "y"] [n1]))).
+  { vm_compute. reflexivity. }
+  split.
+  - right. right. eexists. split; [exact E | vm_compute; reflexivity].
+  - eexists. split; [exact E | vm_compute; reflexivity].
+Qed.
+
+(* non-vacuity: a valid document is outside the gap and loads; a dense calendar exists *)
+Lemma c20_example :
+  (forall (T : Type) (H : Num T),
+     from_json_model (T:=T) (JObj [(KStr k_NamedCal, JObj [(KStr k_name, JStr (s2n "tgt"%string))])]) <> Panic) /\
+  has_working_weekday (mkCal [5; 6] [19814]) /\
+  cal_add_days (mkCal [5; 6] [19814]) 19812 (-128) F false = Ok 19684.
+Proof.
+  split; [intros T H; vm_compute; discriminate|].
+  split; [exists 0; split; [lia | intros [C|[C|[]]]; discriminate]|]. vm_compute. reflexivity.
+Qed.
+
